@@ -2,6 +2,7 @@
 import collections
 import functools
 import os
+import re
 
 from hypothesis import strategies as st
 
@@ -61,7 +62,7 @@ def strategy_(draw, tier):
     # ... and once more as a grouped query (a third of the cases)
     case["grouped"] = None
     if draw(st.sampled_from(range(3))) == 0:
-        case["grouped"] = {"key": draw(st.sampled_from(["ext", "dir", "is_dir", "length(name)"])),
+        case["grouped"] = {"key": draw(st.sampled_from(["ext", "dir", "is_dir", "length(name)", "fsize"])),
                            "order": draw(st.sampled_from([None, "1", "2", "count(*)", "sum(size)", "1"])), "desc": draw(st.booleans())}
     tops = [n for n, nd in spec.items() if nd["t"] == "d" and c05.c02 and n.replace(".", "").replace("_", "").isalnum()
             and not n[0].isdigit() and n not in ("size", "bin", "mode", "name")]
@@ -206,6 +207,15 @@ def check(case):
             if full is not None:
                 gm = len(full)
                 oidx = {"1": 0, "2": 1, "count(*)": 1, "sum(size)": 2}.get(g["order"], 0) if g["order"] else None
+                if g["key"] == "fsize" and g["order"] == "1":
+                    # a size with a unit is a number: `limit N` can only be the first N if the rows are in numeric order
+                    def _bytes(t):
+                        m_ = re.match(r"^(\d+(?:\.\d+)?)(B|KiB|MiB|GiB|TiB)$", t)
+                        return float(m_.group(1)) * 1024 ** ["B", "KiB", "MiB", "GiB", "TiB"].index(m_.group(2)) if m_ else None
+                    vals = [_bytes(r[0]) for r in full]
+                    if all(v is not None for v in vals) and any((a < b) if g["desc"] else (a > b) for a, b in zip(vals, vals[1:])):
+                        out.add("C06/grouped/size-with-unit-key-not-in-numeric-order", query=gsel + gtail + gorder, keys=[r[0] for r in full][:12])
+                    out.classes.append("grouped-by-fsize")
                 for n in list(range(1, gm + 3)) + [0]:
                     q = gsel + gtail + gorder + " limit %d into list" % n
                     rows = c05.run_rows(out, base, q, 3, "C06")
